@@ -18,6 +18,14 @@ def run(rep, tier, seed):
     rep.extra["asynchb_failure_flags"] = asynchb_common.campaign(
         rep, tier, seed, tabs, ["PromoteOnlyEligible", "NeverRaises"],
         {"promote_not_paused", "scheduler_raised", "promoted_twice", "promote_not_in_rung"})
+    # the searcher's bookkeeping under failures (model-based searchers): pending evaluations of a failed trial disappear,
+    # those of the other trials stay (GP, HyperTune and DyHPO searchers on the same schedules)
+    tabs_sd = {"stop_all_faults": A.base(SD="all", Faults=True, Vals={0, 1}),
+               "promo_all_myopic_faults": A.base(Type="promotion", SD="all", Myopic=True, MRA=True, Faults=True, Vals={0, 1})}
+    variants = {"stop_all_faults": [{"searcher": "hypertune"}],
+                "promo_all_myopic_faults": [{"searcher": "hypertune"}, {"searcher": "dyhpo", "sched_type": "dyhpo"}]}
+    rep.extra["searcher_bookkeeping_failure_flags"] = asynchb_common.campaign(
+        rep, tier, seed + 1, tabs_sd, ["PendingOnlyLive", "NeverRaises"], {"pending_not_running", "scheduler_raised"}, variants=variants)
     # binding 3: crashing worker processes (exit code 1) on the real LocalBackend
     from harness.props import local_backend
     local_backend.campaign(rep, "C13", tier, seed, tables=["local_pause", "local_stop", "local_ask"])
